@@ -233,11 +233,29 @@ fn exec_open(toks: &[&str]) -> String {
     prepare(&path, &prior);
     let cpath = CString::new(path.clone()).unwrap();
     let saved = if nofd0 { unsafe { let s = libc::dup(0); libc::close(0); s } } else { -1 };
-    let r1 = match guarded(|| ShmReader::new(cpath.as_c_str()).map(|_| ())) {
+    let mut r1 = match guarded(|| ShmReader::new(cpath.as_c_str()).map(|_| ())) {
         Ok(Ok(())) => "ok".to_string(),
         Ok(Err(e)) => shm_err_text(&e),
         Err(_) => "panic".into(),
     };
+    // a FAILED open must not keep anything either: eight more attempts leave the process's mappings and descriptors
+    // where they were. If they grow, the attempts go on (a long-running client that probes for the daemon once a
+    // second) until the answer changes — the file is the same, so must be the error — or 100 000 were made.
+    if r1.starts_with("err") {
+        let (m0, f0) = res_counts();
+        for _ in 0..8 { let _ = guarded(|| ShmReader::new(cpath.as_c_str()).map(|_| ())); }
+        let (m1, f1) = res_counts();
+        if m1 >= m0 + 4 || f1 >= f0 + 4 {
+            let first = r1.clone();
+            let (old_soft, old_hard) = { let mut l = libc::rlimit { rlim_cur: 0, rlim_max: 0 }; unsafe { libc::getrlimit(libc::RLIMIT_NOFILE, &mut l); } (l.rlim_cur, l.rlim_max) };
+            for _ in 0..100_000 {
+                let a = match guarded(|| ShmReader::new(cpath.as_c_str()).map(|_| ())) { Ok(Ok(())) => "ok".to_string(), Ok(Err(e)) => shm_err_text(&e), Err(_) => "panic".into() };
+                if a != first { r1 = format!("{} after-many-opens", a); break; }
+            }
+            let _ = (old_soft, old_hard);
+            if r1 == first { r1 = format!("{} leak {} {}", first, m1 - m0, f1 - f0); }
+        }
+    }
     let p2 = path.clone();
     let p2b = path.clone();
     let r2 = match guarded(move || ClockBoundClient::new_with_path(&p2).map(|_| ())) {
